@@ -13,7 +13,8 @@ The function is modelled as a function of what it receives from un-modelled part
   * `unit_num_extractor.extract(...)` (both calls: before and after the currency comma rewrite);
   * per number, the span length of the single `ambiguous_unit_number_multiplier_regex` match in its text (`cuts`);
   * the spans of `non_unit_regex.finditer(source)`; the matches of `separate_regex` in the source;
-  * the keep-masks of the two `_filter_ambiguity` calls (regex only: which results survive);
+  * for the two `_filter_ambiguity` calls the outcomes of the filter regexes (per dictionary entry: which result texts
+    the key regex hits, where the value regex matches in the source; which texts the single-char-unit regex matches);
   * per number, whether `half_unit_regex` matches its text; `connector_token`, `max_prefix_match_len`, whether the
     extract type is currency / dimension (`is` comparisons with the constants), `Constants.AMBIGUOUS_TIME_TERM`;
   * the whitespace predicate of the interpreter (`str.isspace`, `str.strip`).
@@ -279,12 +280,42 @@ def separateUnits (srcLen : Nat) (ambTerm : Str) (nonUnit : List (Nat × Nat)) (
   let marks := res.foldl (fun mk e => markRange mk e.start e.len) (List.replicate srcLen false)
   (sep.foldl (sepStep ambTerm nonUnit) (marks, res)).2
 
-/-! ### `_filter_ambiguity` is regex only: its effect is a keep-mask (parameter) -/
+/-! ### `_filter_ambiguity` (after fix 1adaa8061: each result's own text is tested)
+The regexes are parameters, their outcomes arbitrary: per filter `keyHit t` = "`regex_var` has a non-empty match in the
+text `t`", `valMatches` = the non-empty matches of `regexvar_value` in the source as `(start, len(group))`; `scu t` =
+"`single_char_unit_regex` matches at the start of `t`". The function is generic in the element type (`proj` reads the
+extract result) so that `extract` can run it on results tagged with their `unit_is_prefix` flag. -/
 
-def applyMask : List α → List Bool → List α
+structure AmbFilter where
+  keyHit : Str → Bool
+  valMatches : List (Nat × Nat)
+
+structure FilterSpec where
+  filters : List AmbFilter          -- in the iteration order of the dictionary
+  scu : Str → Bool
+
+/-- `any(m.start() < x.start + x.length and m.start() + len(m.group()) > x.start for m in reg_match)` -/
+def overlapsAny (val : List (Nat × Nat)) (e : ER) : Bool :=
+  val.any fun m => decide (m.1 < e.start + e.len) && decide (m.1 + m.2 > e.start)
+
+/-- one dictionary entry: `for er in ers` runs over the list bound when the loop starts, the name `ers` is re-bound to the
+filtered list inside -/
+def ambFilterStep {α} (proj : α → ER) (f : AmbFilter) (ers : List α) : List α :=
+  ers.foldl (fun cur x =>
+    if f.keyHit (proj x).text then
+      (if !f.valMatches.isEmpty then cur.filter (fun y => !overlapsAny f.valMatches (proj y)) else cur)
+    else cur) ers
+
+/-- `_filter_ambiguity(ers, text, dict)`; `srcLen = len(text)` -/
+def filterAmbiguity {α} (proj : α → ER) (srcLen : Nat) (fs : FilterSpec) (ers : List α) : List α :=
+  let ers := fs.filters.foldl (fun cur f => ambFilterStep proj f cur) ers
+  ers.filter fun x => !(decide ((proj x).len ≠ srcLen) && fs.scu (proj x).text)
+
+/-- results of the number loop carry their `unit_is_prefix` flag, separate units (appended after them) carry none -/
+def tagFlags : List ER → List Bool → List (ER × Option Bool)
   | [], _ => []
-  | x :: xs, [] => x :: xs
-  | x :: xs, b :: bs => if b then x :: applyMask xs bs else applyMask xs bs
+  | e :: es, [] => (e, none) :: tagFlags es []
+  | e :: es, f :: fs => (e, some f) :: tagFlags es fs
 
 /-! ### `_select_candidates` -/
 
@@ -375,11 +406,11 @@ structure Inputs where
   hasSeparate : Bool                -- bool(self.separate_regex)
   sep : List (Nat × Str)            -- regex.finditer(separate_regex, source): (start, group)
   ambTerm : Str                     -- Constants.AMBIGUOUS_TIME_TERM
-  mask1 : List Bool                 -- first _filter_ambiguity
-  mask2 : List Bool                 -- second (dimension) _filter_ambiguity
+  filt1 : FilterSpec                -- regex outcomes of the first _filter_ambiguity (ambiguity_filters_dict)
+  filt2 : FilterSpec                -- … of the second (dimension_ambiguity_filters_dict)
   half : List Bool                  -- half-unit regex on each number's text
-  lockstep : Bool                   -- variant: `unit_is_prefix` is filtered together with the results (findings/nwu/
-                                    -- select-candidates-misaligned.diff); false = the flags of the loop are passed unfiltered
+  lockstep : Bool                   -- true = current code (fix e3a14a2db): `unit_is_prefix` is filtered together with the
+                                    -- results; false = the code before it (the flags of the loop are passed unfiltered)
 
 /-- the source string the number loop works on -/
 def fixedSource (c : Cfg) (i : Inputs) : Str :=
@@ -398,29 +429,29 @@ def loopState (c : Cfg) (i : Inputs) : St :=
     coreLoop c (fixedSource c i) i.pm i.sm i.nonUnit (loopNumbers c i)
   else St.init
 
-/-- the `unit_is_prefix` list `_select_candidates` receives: one flag per result of the number loop; in the lockstep
-variant the flags of the results the ambiguity filters removed are dropped (the loop's results are the first entries of
-the filtered list, separate units come after them) -/
+/-- results (tagged with their flag) after the separate units were added and the ambiguity filters ran -/
+def filteredTagged (c : Cfg) (i : Inputs) : List (ER × Option Bool) :=
+  let src := fixedSource c i
+  let st := loopState c i
+  let nonUnit := if st.nonUnitComputed then i.nonUnit else []   -- `list(regex.match(..))` raises → `[]`
+  let r := separateUnits src.length i.ambTerm nonUnit st.result i.sep
+  let t := filterAmbiguity (·.1) src.length i.filt1 (tagFlags r st.flags)
+  if c.isDimension then filterAmbiguity (·.1) src.length i.filt2 t else t
+
+/-- the `unit_is_prefix` list `_select_candidates` receives: the flags of the loop's results that survived the filters
+(`[flag for er, flag in zip(numbered, unit_is_prefix) if any(er is kept for kept in result)]`); before fix e3a14a2db
+the loop's flags unfiltered -/
 def selectFlags (c : Cfg) (i : Inputs) : List Bool :=
-  let fl := (loopState c i).flags
-  if i.lockstep then
-    let f1 := applyMask fl i.mask1
-    if c.isDimension then applyMask f1 i.mask2 else f1
-  else fl
+  if i.lockstep then (filteredTagged c i).filterMap (·.2) else (loopState c i).flags
 
 /-- `extract` up to (not including) `expand_half_suffix` -/
 def extractPre (c : Cfg) (i : Inputs) : Option (List ER) :=
   if i.src.isEmpty then some []
   else
-    let src := fixedSource c i
-    let st := loopState c i
     if i.hasSeparate then
-      let nonUnit := if st.nonUnitComputed then i.nonUnit else []   -- `list(regex.match(..))` raises → `[]`
-      let r := separateUnits src.length i.ambTerm nonUnit st.result i.sep
-      let r := applyMask r i.mask1
-      let r := if c.isDimension then applyMask r i.mask2 else r
-      if c.isCurrency then selectCandidates c.sp src.length r (selectFlags c i) else some r
-    else some st.result
+      let r := (filteredTagged c i).map (·.1)
+      if c.isCurrency then selectCandidates c.sp (fixedSource c i).length r (selectFlags c i) else some r
+    else some (loopState c i).result
 
 def extract (c : Cfg) (i : Inputs) : Option (List ER) :=
   if i.src.isEmpty then some []
